@@ -174,3 +174,29 @@ def shape_dispatch_falls_through(f: Func, len_subjects: set[str]):
             handler = True  # a general handler / emission on the default path
     normal_end = any(e.kind == "return" for e in ends)
     return len(shapes), (normal_end and not handler)
+
+
+def check_alldiff_coverage(ctx: Ctx, oid: str):
+    # all_different must constrain every value ANY of its variables can take: the value universe is the union of the
+    # variables' full ranges (or the hull min(lb) .. max(ub)); anything narrower leaves some shared value unconstrained
+    ad = ctx.func("cp_encoder", "SATEncoder._encode_all_different")
+    t_ad = ast.unparse(ad.node)
+    union_form = any(isinstance(n, ast.Call) and isinstance(n.func, ast.Attribute) and n.func.attr in ("update", "add") and ("range(var.lb, var.ub + 1)" in ast.unparse(n) or "bool_vars" in ast.unparse(n)) for n in own_nodes(ad.node)) or "|=" in t_ad and "bool_vars" in t_ad
+    hull_form = False
+    for n in own_nodes(ad.node):
+        if isinstance(n, ast.Call) and ast.unparse(n.func) == "range" and len(n.args) == 2 and "var." not in ast.unparse(n):
+            lo, hi = n.args
+            def _agg(e, fn, attr):
+                e0 = e.left if isinstance(e, ast.BinOp) else e
+                if isinstance(e0, ast.Name):
+                    d = [x.value for x in own_nodes(ad.node) if isinstance(x, ast.Assign) and ast.unparse(x.targets[0]) == e0.id]
+                    e0 = d[0] if len(d) == 1 else e0
+                return isinstance(e0, ast.Call) and ast.unparse(e0.func) == fn and f".{attr}" in ast.unparse(e0)
+            if _agg(lo, "min", "lb") and _agg(hi, "max", "ub"):
+                hull_form = True
+            else:
+                union_form = False  # a value range that is neither a per-variable range nor the full hull
+    ctx.ob(oid, "R12 NO-CARDINALITY-CUTOFF", ad, "all_different covers every value of the union of its variables' domains", union_form or hull_form, "values outside the enumerated range get no at-most-one clause: two variables can share such a value", node=ad.node)
+    lits_loop = [n for n in own_nodes(ad.node) if isinstance(n, ast.If) and "in var.bool_vars" in ast.unparse(n.test)]
+    ctx.ob(oid, "R12 NO-CARDINALITY-CUTOFF", ad, "for each value, every variable that can take it contributes its literal", len(lits_loop) == 1 and "lits.append(var.bool_vars[val])" in t_ad and "for var in variables" in t_ad, "", node=ad.node)
+
